@@ -77,6 +77,9 @@ func (e *FakeES) CalcTimeout(v primitives.View) time.Duration {
 	}
 	return time.Duration(e.Base<<uint(v)) * time.Millisecond
 }
+
+// MaxTimerView is the highest view whose virtual timeout (Base*2^view) the virtual clock can represent.
+const MaxTimerView = 55
 func (e *FakeES) Stop() {
 	if e.Armed {
 		e.node.w.Log.Add(spi.Event{Node: e.node.Id, Kind: spi.EvStop, H: e.H, V: e.V})
@@ -87,8 +90,8 @@ func (e *FakeES) Stop() {
 // Expiry in virtual time (saturating).
 func (e *FakeES) Expiry() uint64 {
 	v := e.V
-	if v > 40 {
-		v = 40
+	if v > MaxTimerView {
+		v = MaxTimerView
 	}
 	return e.ArmAt + e.Base<<v
 }
@@ -172,7 +175,7 @@ func NewWorld(cfg *CaseConfig, rng *rand.Rand) *World {
 
 func (w *World) newNode(id string) *Node {
 	n := &Node{Id: id, w: w, Commits: map[uint64]*CommitRec{}}
-	n.ES = &FakeES{node: n, ch: make(chan *interfaces.ElectionTrigger), Base: 1000}
+	n.ES = &FakeES{node: n, ch: make(chan *interfaces.ElectionTrigger), Base: 1}
 	n.St = state.NewState()
 	n.BU = &spi.BlockUtils{Node: id, Log: w.Log}
 	n.Store = &spi.RecStorage{Storage: storage.NewInMemoryStorage(), Node: id, Log: w.Log}
